@@ -57,6 +57,7 @@ class LubaGW:
         self.pending = []       # channel 0: replies to the driver
         self.observe = []       # channel 1: foreign traffic (scenario-provided frames)
         self.wire = []
+        self.wire_pos = []      # position in the event trace at which each data frame was handed to the gateway
         self.answers = {}
         self.tx_id = 0
         self.silent_confirm = False     # fault: stops confirming
@@ -65,6 +66,7 @@ class LubaGW:
     def on_write(self, data):
         if len(data) < 4 or data[0] != 0x59:
             self.wire.append(("junk", data.hex(), False, None))
+            self.wire_pos.append(len(self.w.trace))
             return
         cmd = data[1]
         if cmd == 0x20:
@@ -80,6 +82,7 @@ class LubaGW:
             twice = bool(mode & 0x80)
             idx = len(self.wire)
             self.wire.append((bits, value, twice, mode & 0x7F))
+            self.wire_pos.append(len(self.w.trace))
             self.tx_id = (self.tx_id + 1) & 0xFF
             if self.silent_confirm:
                 return
@@ -107,6 +110,7 @@ class SciGW:
         self.pending = []
         self.observe = []
         self.wire = []
+        self.wire_pos = []
         self.answers = {}
         self.silent_confirm = False
         self.silent_answer = False
@@ -115,6 +119,7 @@ class SciGW:
     def on_write(self, data):
         if len(data) != 5:
             self.wire.append(("junk", data.hex(), False, None))
+            self.wire_pos.append(len(self.w.trace))
             return
         ctl, hi, mid, lo, chk = data
         mode = ctl & 0x0F
@@ -127,6 +132,7 @@ class SciGW:
         twice = bool(ctl & 0x10)
         idx = len(self.wire)
         self.wire.append((bits, value, twice, ctl))
+        self.wire_pos.append(len(self.w.trace))
         if self.silent_confirm:
             return
         if ctl & 0x20:      # echo: the transmitted frame is reported back, right-aligned as received frames are
@@ -201,6 +207,17 @@ class SerialWorld(World):
 
     def _deliver0(self):
         data = self.gateway.pending.pop(0)
+        die = getattr(self.gateway, "die_mid", None)       # [reports still delivered whole, bytes of the next one]
+        if die is not None:
+            if die[0] > 0:
+                die[0] -= 1
+            else:
+                # the gateway dies in the middle of this report: only its first bytes arrive, then nothing ever again
+                data = data[:die[1]]
+                self.gateway.pending.clear()
+                self.gateway.silent_confirm = True
+                self.gateway.dead = True
+                self.gateway.die_mid = None
         self.deliveries.append((len(self.trace), data))
         self.loop.inject(self.protocol.data_received, data)
 
